@@ -352,9 +352,10 @@ def classify(di, w, previous=None):
     if t == 'array':
         if not isinstance(w, list):
             return REJECT, {WRONGTYPE}
+        inner = _combine([classify(di['members'], e) for e in w], list)
         if not di.get('minlen', 0) <= len(w) <= di['maxlen']:
-            return REJECT, {RANGE}
-        return _combine([classify(di['members'], e) for e in w], list)
+            return REJECT, {RANGE} | (inner[1] if inner[0] == REJECT else set())
+        return inner
     if t == 'tuple':
         if not isinstance(w, list):
             return REJECT, {WRONGTYPE}
